@@ -1,5 +1,8 @@
 //! C12 — `spectrum_q_value`
-//!   specq [n label…]  ->  [n u32 q…] passing          (label 1 = decoy, 0 = target)
+//!   specq [n label…] junk  ->  [n u32 q…] passing      (label 1 = decoy, 0 = target)
+//! `junk` seeds the values every OTHER field of the PSMs holds before the call (including a stale
+//! `spectrum_q` from an earlier pass, as in sage-cli's predict_rt flow): the result must depend on the
+//! labels only. junk = 0 means freshly initialised PSMs.
 use super::Info;
 use crate::proto::{Case, Out, Rng, Tier, Toks};
 use sage_core::ml::qvalue::spectrum_q_value;
@@ -12,13 +15,20 @@ pub const INFO: Info = Info {
     serial: false,
 };
 
-fn request(labels: &[bool]) -> String {
+fn request_junk(labels: &[bool], junk: u64) -> String {
     let mut o = Out::new();
     o.raw("specq").n(labels.len());
     for &l in labels {
         o.b(l);
     }
+    o.n(junk);
     o.finish()
+}
+
+fn request(labels: &[bool]) -> String {
+    // a deterministic mix of fresh (junk = 0) and stale PSMs
+    let h = labels.iter().fold(labels.len() as u64 * 31 + 7, |a, &b| a.wrapping_mul(1099511628211) ^ (b as u64 + 1));
+    request_junk(labels, if h % 3 == 0 { 0 } else { 1 + h % 1000 })
 }
 
 pub fn gen(rng: &mut Rng, tier: Tier, emit: &mut dyn FnMut(Case)) {
@@ -61,11 +71,24 @@ pub fn gen(rng: &mut Rng, tier: Tier, emit: &mut dyn FnMut(Case)) {
 
 pub fn exec(_op: &str, t: &mut Toks) -> Option<String> {
     let labels = t.list(|t| t.bool())?;
+    let junk = t.usize()? as u64;
+    let mut jr = Rng::new(junk);
     let mut feats: Vec<_> = labels
         .iter()
         .map(|&decoy| {
             let mut f = super::util::blank_feature();
             f.label = if decoy { -1 } else { 1 };
+            if junk != 0 {
+                // whatever an earlier pass left behind
+                f.spectrum_q = *jr.pick(&[0.0f32, 0.001, 0.0057, 0.01, 0.5, 1.0, 7.5]);
+                f.peptide_q = jr.unit() as f32;
+                f.protein_q = jr.unit() as f32;
+                f.discriminant_score = (jr.unit() * 10.0 - 5.0) as f32;
+                f.posterior_error = -(jr.unit() * 30.0) as f32;
+                f.hyperscore = jr.unit() * 80.0;
+                f.rank = 1 + jr.below(3) as u32;
+                f.psm_id = jr.below(100000);
+            }
             f
         })
         .collect();
